@@ -279,7 +279,7 @@ def command_kind(i: int) -> bool:
     return ok
 
 
-@obligation(tier="quick", parts=len(c02.FIELDS), timeout=150, part_names=c02.field_name,
+@obligation(tier="quick", parts=len(c02.FIELDS), timeout=150, thorough_timeout=1800, part_names=c02.field_name,
             bounds="the typed one-field deviations of C02 (29 command/field pairs x 10 kinds, symbolic ints and ASCII strings <= 2 "
                    "(T: 4) chars) pushed through the server's request handler; pre-state flag symbolic",
             examples=[(0, dict(kind=0, ival=0, sval="", flag=False)), (9, dict(kind=1, ival=3, sval="", flag=True))])
